@@ -189,3 +189,60 @@ async fn verif_model_daser_marking() {
     }
     println!("ENUM-OK cases={cases}");
 }
+
+// T3 (C35 / C34): several blocks sampled concurrently through the running Daser; blocks finish in random order (sampled or
+// timed out); after every completion the pruner's question is asked for every height: it must be refused exactly for
+// the blocks whose sampling is still in progress.
+#[async_test]
+async fn verif_model_daser_prune_requests() {
+    let seed: u64 = std::env::var("VERIF_SEED").ok().and_then(|s| s.parse().ok()).unwrap_or(0);
+    let rounds: u64 = std::env::var("VERIF_PRUNE_ROUNDS").ok().and_then(|s| s.parse().ok()).unwrap_or(4);
+    let mut asked = 0u64;
+    for round in 0..rounds {
+        let mut rng = XorShiftD(0xE7037ED1A0B428DB ^ seed.wrapping_mul(15485863).wrapping_add(round + 1));
+        let (mock, mut handle) = P2p::mocked();
+        let store = Arc::new(InMemoryStore::new());
+        let events = EventChannel::new();
+        let k = 3 + rng.below(3);
+        let eds = generate_dummy_eds(2, AppVersion::V2);
+        let dah = DataAvailabilityHeader::from_eds(&eds);
+        let mut generator = ExtendedHeaderGenerator::new();
+        let headers: Vec<celestia_types::ExtendedHeader> = (0..k).map(|_| generator.next_with_dah(dah.clone())).collect();
+        store.insert(headers).await.unwrap();
+        let daser = Daser::start(DaserArgs { event_pub: events.publisher(), p2p: Arc::new(mock), store: store.clone(), sampling_window: SAMPLING_WINDOW, concurrency_limit: k as usize, additional_headersub_concurrency: 1 }).unwrap();
+        handle.expect_no_cmd().await;
+        handle.announce_peer_connected();
+        // all k blocks start: 4 requests each
+        let mut pending: HashMap<u64, Vec<(Cid, OneshotResultSender<Vec<u8>, P2pError>)>> = HashMap::new();
+        for _ in 0..(4 * k) {
+            let (cid, tx) = handle.expect_get_shwap_cid().await;
+            let id: SampleId = (&cid).try_into().unwrap();
+            pending.entry(id.block_height()).or_default().push((cid, tx));
+        }
+        handle.expect_no_cmd().await;
+        let mut in_flight: Vec<u64> = pending.keys().copied().collect();
+        in_flight.sort();
+        while !in_flight.is_empty() {
+            // finish one block
+            let h = in_flight.remove(rng.below(in_flight.len() as u64) as usize);
+            let timeout_it = rng.below(2) == 0;
+            for (cid, tx) in pending.remove(&h).unwrap() {
+                if timeout_it { tx.send(Err(P2pError::RequestTimedOut)).unwrap(); }
+                else { let id: SampleId = (&cid).try_into().unwrap(); tx.send(Ok(gen_sample_of_cid(id, &eds).await)).unwrap(); }
+            }
+            sleep(Duration::from_millis(40)).await;
+            for q in 1..=k {
+                asked += 1;
+                let granted = daser.want_to_prune(q).await.unwrap();
+                let busy = in_flight.contains(&q);
+                if granted && busy {
+                    println!("WITNESS C35: the daser allows the pruner to remove block {q} while its sampling is still in progress (block {h} just finished; in progress {in_flight:?}) (seed {seed}, round {round})"); panic!("witness");
+                }
+                if !granted && !busy {
+                    println!("WITNESS C34: the daser refuses to let block {q} be pruned although its sampling is not in progress (in progress {in_flight:?}) (seed {seed}, round {round})"); panic!("witness");
+                }
+            }
+        }
+    }
+    println!("ENUM-OK cases={asked}");
+}
